@@ -22,4 +22,12 @@ def hex4 (n : Nat) : String :=
 
 def fmtStr (s : List Nat) : String := " ".intercalate (s.map hex4)
 
+/-- `usize` arguments: decimal, or the boundary names the harness understands -/
+def parseUsize (s : String) : Nat :=
+  match s with
+  | "max" => 2 ^ 64 - 1
+  | "max-1" => 2 ^ 64 - 2
+  | "half" => 2 ^ 63
+  | _ => s.toNat!
+
 end Precis.Proto
